@@ -1,28 +1,446 @@
 package main
 
 import (
+	"encoding/json"
+	"flag"
 	"fmt"
 	"os"
-
-	"golang.org/x/tools/go/packages"
-	"golang.org/x/tools/go/ssa"
-	"golang.org/x/tools/go/ssa/ssautil"
+	"path/filepath"
+	"sort"
+	"strconv"
+	"strings"
+	"time"
 )
 
+type PropCfg struct {
+	Packages   []string `json:"packages"`
+	MinObls    int      `json:"min_obligations"`
+	Level      string   `json:"level"`
+	Trusted    []string `json:"trusted_base"`
+	Assume     []string `json:"assumptions"`
+	NotCovered []string `json:"not_covered"`
+	Bounded    []string `json:"bounded"`
+}
+
+var verifDir = "/verif"
+
 func main() {
-	cfg := &packages.Config{Mode: packages.LoadAllSyntax, Dir: "/repo", BuildFlags: []string{"-tags=verif"}}
-	pkgs, err := packages.Load(cfg, os.Args[1:]...)
-	if err != nil {
-		panic(err)
+	if len(os.Args) < 2 {
+		fmt.Fprintln(os.Stderr, "usage: gvc check <PROP> [--tier quick|thorough] | gvc dump <pkg> <func>")
+		os.Exit(2)
 	}
-	prog, spkgs := ssautil.AllPackages(pkgs, ssa.NaiveForm|ssa.GlobalDebug)
-	prog.Build()
-	for _, p := range spkgs {
-		if p != nil {
-			fmt.Println(p.Pkg.Path())
-			if f := p.Func("ByzantineMajority"); f != nil {
-				f.WriteTo(os.Stdout)
+	if d := os.Getenv("GVC_VERIF_DIR"); d != "" {
+		verifDir = d
+	}
+	switch os.Args[1] {
+	case "check":
+		os.Exit(cmdCheck(os.Args[2:]))
+	case "dump":
+		cmdDump(os.Args[2:])
+	default:
+		fmt.Fprintln(os.Stderr, "unknown command")
+		os.Exit(2)
+	}
+}
+
+func cmdDump(args []string) {
+	repo := "/repo"
+	if r := os.Getenv("GVC_REPO"); r != "" {
+		repo = r
+	}
+	e := newEngine(repo)
+	if err := e.load([]string{args[0]}); err != nil {
+		fmt.Fprintln(os.Stderr, err)
+		os.Exit(1)
+	}
+	for _, sp := range e.ssaPkgs {
+		if !strings.HasPrefix(sp.Pkg.Path(), e.modPath) {
+			continue
+		}
+		for _, k := range args[1:] {
+			if fn := e.findFunc(sp.Pkg.Path() + "." + k); fn != nil {
+				fn.WriteTo(os.Stdout)
+				for _, af := range fn.AnonFuncs {
+					af.WriteTo(os.Stdout)
+				}
 			}
 		}
 	}
+}
+
+type finding struct {
+	Kind, Prop, Obl, Text string
+}
+
+func loadFindings() []finding {
+	b, err := os.ReadFile(filepath.Join(verifDir, "known_findings.txt"))
+	if err != nil {
+		return nil
+	}
+	var out []finding
+	for _, l := range strings.Split(string(b), "\n") {
+		l = strings.TrimSpace(l)
+		if l == "" || strings.HasPrefix(l, "#") {
+			continue
+		}
+		var f finding
+		switch {
+		case strings.HasPrefix(l, "finding:"):
+			f.Kind = "finding"
+			l = strings.TrimSpace(l[8:])
+		case strings.HasPrefix(l, "fixed:"):
+			f.Kind = "fixed"
+			l = strings.TrimSpace(l[6:])
+		default:
+			continue
+		}
+		if i := strings.Index(l, " :: "); i >= 0 {
+			f.Text = strings.TrimSpace(l[i+4:])
+			l = l[:i]
+		}
+		for _, kv := range strings.Fields(l) {
+			if strings.HasPrefix(kv, "property=") {
+				f.Prop = kv[9:]
+			}
+		}
+		if i := strings.Index(l, "obligation="); i >= 0 {
+			f.Obl = strings.TrimSpace(l[i+11:])
+		}
+		out = append(out, f)
+	}
+	return out
+}
+
+func cmdCheck(args []string) int {
+	fs := flag.NewFlagSet("check", flag.ExitOnError)
+	tier := fs.String("tier", "", "quick or thorough")
+	verbose := fs.Bool("v", false, "verbose")
+	only := fs.String("only", "", "only functions whose key contains this")
+	noEvidence := fs.Bool("no-evidence", false, "do not write the evidence file")
+	if len(args) < 1 {
+		return 2
+	}
+	prop := args[0]
+	fs.Parse(args[1:])
+	if *tier == "" {
+		*tier = os.Getenv("VERIF_TIER")
+	}
+	if *tier == "" {
+		*tier = "quick"
+	}
+	seed, _ := strconv.Atoi(os.Getenv("VERIF_SEED"))
+	repo := "/repo"
+	if r := os.Getenv("GVC_REPO"); r != "" {
+		repo = r
+	}
+	t0 := time.Now()
+	var cfgs map[string]*PropCfg
+	b, err := os.ReadFile(filepath.Join(verifDir, "props.json"))
+	if err != nil {
+		fmt.Fprintln(os.Stderr, "props.json:", err)
+		return 2
+	}
+	if err := json.Unmarshal(b, &cfgs); err != nil {
+		fmt.Fprintln(os.Stderr, "props.json:", err)
+		return 2
+	}
+	cfg := cfgs[prop]
+	if cfg == nil {
+		fmt.Fprintln(os.Stderr, "unknown property", prop)
+		return 2
+	}
+	outDir := filepath.Join(verifDir, "out", prop)
+	os.RemoveAll(outDir)
+	os.MkdirAll(filepath.Join(outDir, "replay"), 0o755)
+
+	e := newEngine(repo)
+	e.verbose = *verbose
+	var obls []*Obl
+	var vcs []*VC
+	var fnsUnder []string
+	var trustedUsed = map[string]bool{}
+	loadErr := e.load(cfg.Packages)
+	if loadErr == nil {
+		loadErr = e.loadSpecs(filepath.Join(verifDir, "prelude"))
+	}
+	if loadErr != nil {
+		// the tree does not compile or contracts are broken: report as violation without input
+		o := &Obl{Name: prop + "/load", Kind: "load", Props: []string{prop}, Desc: "repository loads, type-checks and contracts parse", Result: "error", Solver: "none", Out: loadErr.Error()}
+		obls = append(obls, o)
+	} else {
+		registerModels(e)
+		e.ensureAxioms()
+		for _, le := range e.loadErrs {
+			obls = append(obls, &Obl{Name: prop + "/contract-load", Kind: "load", Props: []string{prop}, Desc: "contract files are well-formed", Result: "error", Solver: "none", Out: le})
+		}
+		var keys []string
+		for k, c := range e.contracts {
+			if c.Trusted || !hasProp(c.Props, prop) {
+				continue
+			}
+			if *only != "" && !strings.Contains(k, *only) {
+				continue
+			}
+			keys = append(keys, k)
+		}
+		sort.Strings(keys)
+		for _, k := range keys {
+			c := e.contracts[k]
+			if c.Iface {
+				continue
+			}
+			fn := e.findFunc(k)
+			if fn == nil {
+				obls = append(obls, &Obl{Name: shortName(k) + "/exists", Kind: "exists", Props: c.Props, Fn: k, Desc: "function under contract exists in the code", Result: "error", Solver: "none", Out: "function " + k + " named by " + c.File + " not found"})
+				continue
+			}
+			fnsUnder = append(fnsUnder, k)
+			vc := e.verifyFn(fn, c)
+			vcs = append(vcs, vc)
+			obls = append(obls, vc.obls...)
+		}
+		for _, l := range e.lemmas {
+			if !hasProp(l.Props, prop) {
+				continue
+			}
+			if *only != "" && !strings.Contains(l.Name, *only) {
+				continue
+			}
+			vc := e.verifyLemma(l)
+			vcs = append(vcs, vc)
+			obls = append(obls, vc.obls...)
+		}
+		obls = append(obls, e.extraObligations(prop, cfg)...)
+	}
+	// give obligations property-qualified names
+	for _, o := range obls {
+		if !strings.HasPrefix(o.Name, prop+"/") {
+			o.Name = prop + "/" + o.Name
+		}
+	}
+	solveAll(obls, outDir, *tier, 16)
+
+	findings := loadFindings()
+	isKnown := func(name string) *finding {
+		for i := range findings {
+			f := &findings[i]
+			if f.Kind == "finding" && f.Prop == prop && f.Obl == name {
+				return f
+			}
+		}
+		return nil
+	}
+	exit := 0
+	nDis, nCover, nKnown, nViol := 0, 0, 0, 0
+	bySolver := map[string]int{}
+	solverSecs := 0.0
+	var samples []any
+	var undecided []string
+	var knownLines []string
+	seenKnown := map[string]bool{}
+	for _, o := range obls {
+		solverSecs += o.Secs
+		if o.ok() {
+			if o.Cover {
+				nCover++
+			} else {
+				nDis++
+			}
+			bySolver[o.Solver]++
+			if len(samples) < 4 && !o.Cover && o.Solver != "trivial" {
+				samples = append(samples, map[string]any{"obligation": o.Name, "kind": o.Kind, "at": o.Pos, "goal": trunc(o.Desc, 300), "result": o.Result, "solver": o.Solver, "secs": round3(o.Secs)})
+			}
+			if *verbose {
+				fmt.Printf("ok    %-70s %s %.2fs\n", o.Name, o.Solver, o.Secs)
+			}
+			continue
+		}
+		if f := isKnown(o.Name); f != nil {
+			nKnown++
+			if !seenKnown[o.Name] {
+				seenKnown[o.Name] = true
+				line := fmt.Sprintf("KNOWN-FINDING: property=%s %s :: %s", prop, o.Name, f.Text)
+				fmt.Println(line)
+				knownLines = append(knownLines, o.Name+" :: "+f.Text)
+			}
+			continue
+		}
+		nViol++
+		exit = 1
+		rp := filepath.Join(outDir, "replay", sanitize(o.Name)+".txt")
+		reproduced := writeReplay(e, o, rp, repo)
+		suffix := ""
+		if !reproduced {
+			suffix = " no-failing-input-found"
+		}
+		fmt.Printf("FAILED obligation %s [%s by %s] at %s\n    %s\n", o.Name, o.Result, o.Solver, o.Pos, trunc(o.Desc, 400))
+		fmt.Printf("VIOLATION property=%s replay=%s%s\n", prop, rp, suffix)
+		undecided = append(undecided, o.Name)
+	}
+	// a listed finding that no longer fails is fine (it may have been fixed), but say so
+	for _, f := range findings {
+		if f.Kind == "finding" && f.Prop == prop && !seenKnown[f.Obl] {
+			fmt.Printf("note: listed finding no longer fails: %s\n", f.Obl)
+		}
+	}
+	total := len(obls) - nCover - nKnown
+	for _, o := range obls {
+		if o.Cover && !o.ok() {
+			// failed covers were counted as violations above; keep totals consistent
+			total++
+		}
+	}
+	if cfg.MinObls > 0 && len(obls) < cfg.MinObls && loadErr == nil && *only == "" {
+		exit = 1
+		rp := filepath.Join(outDir, "replay", "obligation-count.txt")
+		os.WriteFile(rp, []byte(fmt.Sprintf("obligation %s/obligation-count: generated %d obligations, expected at least %d (a function, loop or contract disappeared)\n", prop, len(obls), cfg.MinObls)), 0o644)
+		fmt.Printf("VIOLATION property=%s replay=%s no-failing-input-found\n", prop, rp)
+		nViol++
+	}
+	wall := time.Since(t0).Seconds()
+	// assumptions
+	assume := map[string]bool{}
+	for _, vc := range vcs {
+		for _, s := range vc.assumed {
+			assume[s] = true
+			if strings.HasPrefix(s, "trusted contract: ") {
+				trustedUsed[s[18:]] = true
+			}
+		}
+	}
+	var assumptions []string
+	assumptions = append(assumptions, cfg.Assume...)
+	assumptions = append(assumptions,
+		"T1: go/types + go/ssa (NaiveForm) front end and gvc's SSA-to-SMT translation are trusted (exercised by the must-fail selftest corpus)",
+		"T2: soundness of z3 4.8.12 / z3 5.1.0 / cvc5 1.0",
+		"nil-dereference freedom is assumed (not checked) unless a contract sets 'option nilcheck on'",
+		"integer arithmetic is modelled exactly (two's complement wrap) over mathematical Int; 'option nowrap on' turns overflow into an obligation",
+		"append always yields a fresh backing array (in-place growth aliasing not modelled); goroutine spawns are no-ops for the spawner; termination is not proved",
+	)
+	for _, s := range sortedKeys(assume) {
+		assumptions = append(assumptions, s)
+	}
+	tb := append([]string{"go/ssa front end", "gvc VC generator", "z3-new 5.1.0", "z3 4.8.12", "cvc5 1.0"}, cfg.Trusted...)
+	for _, k := range sortedKeys(trustedUsed) {
+		tb = append(tb, "prelude contract: "+k)
+	}
+	sort.Strings(fnsUnder)
+	level := cfg.Level
+	if level == "" {
+		level = "proof"
+	}
+	cov := map[string]any{
+		"obligations":              total,
+		"discharged":               nDis,
+		"checker_cmd":              fmt.Sprintf("/verif/check %s --tier %s  (gvc check: VCs from go/ssa of /repo's working tree; z3-new first, then z3 4.8.12 and cvc5 in parallel on unknown/timeout)", prop, *tier),
+		"trusted_base":             tb,
+		"samples":                  samples,
+		"functions_under_contract": fnsUnder,
+		"discharged_by_backend":    bySolver,
+		"solver_time_s":            round3(solverSecs),
+		"vacuity_covers_passed":    nCover,
+		"known_finding_obligations": nKnown,
+		"known_findings":           knownLines,
+		"undischarged":             undecided,
+		"bounded":                  cfg.Bounded,
+		"not_covered":              cfg.NotCovered,
+		"explanation":              "Each obligation is a closed SMT-LIB script (assumptions and negated goal) generated from the go/ssa form of the real function bodies in /repo plus the //@ contracts in zz_verif_contracts.go; 'discharged' counts scripts answered unsat. Obligations listed under known_findings fail on the unchanged tree because of a genuine defect recorded in /verif/known_findings.txt and are excluded from 'obligations'.",
+	}
+	ev := map[string]any{
+		"property_id": prop,
+		"tier":        *tier,
+		"seed":        seed,
+		"level":       level,
+		"coverage":    cov,
+		"assumptions": assumptions,
+		"wall_s":      round3(wall),
+		"violations":  nViol,
+	}
+	if !*noEvidence {
+		os.MkdirAll(filepath.Join(verifDir, "evidence"), 0o755)
+		eb, _ := json.MarshalIndent(ev, "", " ")
+		os.WriteFile(filepath.Join(verifDir, "evidence", prop+".json"), append(eb, '\n'), 0o644)
+	}
+	fmt.Printf("%s: %d obligations, %d discharged, %d covers ok, %d known findings, %d violations, %.1fs (solver %.1fs)\n", prop, total, nDis, nCover, nKnown, nViol, wall, solverSecs)
+	if *verbose {
+		for _, vc := range vcs {
+			for _, w := range vc.warns {
+				fmt.Println("warn:", vc.fnName, w)
+			}
+		}
+	}
+	return exit
+}
+
+func hasProp(ps []string, p string) bool {
+	for _, x := range ps {
+		if x == p {
+			return true
+		}
+	}
+	return false
+}
+
+func trunc(s string, n int) string {
+	if len(s) > n {
+		return s[:n] + "…"
+	}
+	return s
+}
+
+func round3(f float64) float64 { return float64(int(f*1000+0.5)) / 1000 }
+
+// writeReplay writes the replay file for a failed obligation and tries to reproduce it on the real code.
+func writeReplay(e *Engine, o *Obl, path, repo string) bool {
+	var b strings.Builder
+	fmt.Fprintf(&b, "obligation: %s\nkind: %s\nfunction: %s\nat: %s\ngoal: %s\nresult: %s (solver %s, %.2fs)\nscript: %s\n", o.Name, o.Kind, o.Fn, o.Pos, o.Desc, o.Result, o.Solver, o.Secs, o.Script)
+	reproduced := false
+	if o.Result == "sat" && o.vc != nil {
+		model := parseModel(o.Out)
+		ok, txt := tryReplay(e, o, model, repo, filepath.Dir(path))
+		b.WriteString(txt)
+		reproduced = ok
+	}
+	b.WriteString("\n--- solver output ---\n")
+	b.WriteString(trunc(o.Out, 20000))
+	os.WriteFile(path, []byte(b.String()), 0o644)
+	return reproduced
+}
+
+// parseModel extracts (define-fun name () Sort value) entries.
+func parseModel(out string) map[string]string {
+	m := map[string]string{}
+	lines := strings.Split(out, "\n")
+	for i := 0; i < len(lines); i++ {
+		l := strings.TrimSpace(lines[i])
+		if !strings.HasPrefix(l, "(define-fun ") {
+			continue
+		}
+		rest := l[len("(define-fun "):]
+		sp := strings.Index(rest, " ")
+		if sp < 0 {
+			continue
+		}
+		name := rest[:sp]
+		rest = strings.TrimSpace(rest[sp:])
+		if !strings.HasPrefix(rest, "()") {
+			continue
+		}
+		rest = strings.TrimSpace(rest[2:])
+		// sort then value, value may be on the next line
+		var val string
+		if k := strings.Index(rest, " "); k >= 0 && !strings.HasPrefix(rest, "(") {
+			val = strings.TrimSpace(rest[k:])
+		}
+		if val == "" && i+1 < len(lines) {
+			val = strings.TrimSpace(lines[i+1])
+		}
+		val = strings.TrimSuffix(val, ")")
+		val = strings.TrimSpace(val)
+		if strings.HasPrefix(val, "(- ") {
+			val = "-" + strings.TrimSuffix(val[3:], ")")
+		}
+		m[name] = val
+	}
+	return m
 }
